@@ -118,6 +118,9 @@ func genCase(r *sim.Rand, base []byte) C09Case {
 		if len(base) == 0 {
 			return 0
 		}
+		if r.Chance(1, 12) {
+			return r.Intn(5) // the very first bytes of the file
+		}
 		if len(toks) > 0 && r.Chance(3, 4) {
 			o := sim.Pick(r, toks)
 			if o > len(base) {
@@ -132,7 +135,7 @@ func genCase(r *sim.Rand, base []byte) C09Case {
 		nm = 0
 	}
 	for k := 0; k < nm; k++ {
-		m := C09Mut{Kind: sim.Pick(r, []string{"truncate", "torn", "drop", "dup", "zero", "flip", "bitflip", "lf", "emptyparam", "insert", "truncate", "drop", "hdrval", "hdrval"}), Off: off()}
+		m := C09Mut{Kind: sim.Pick(r, []string{"truncate", "torn", "drop", "dup", "zero", "flip", "bitflip", "lf", "emptyparam", "insert", "truncate", "drop", "hdrval", "hdrval", "prefix"}), Off: off()}
 		switch m.Kind {
 		case "drop", "dup", "zero":
 			m.Len = 1 + r.Intn(40)
@@ -142,6 +145,10 @@ func genCase(r *sim.Rand, base []byte) C09Case {
 			m.Len = r.Intn(8)
 		case "hdrval":
 			m.Arg = sim.Pick(r, []string{"undisclosed-recipients:;", "a:;, b:;", "group: ;", ";", ";;", " ", "", "=", "\"", "<>", "@", "<@>", "a@", "multipart/mixed", "multipart/mixed; boundary=", "multipart/mixed; boundary=\"\"", "text/plain; charset=", "text/plain; =", "; name=x", "attachment; filename", "attachment; filename=;", "inline;;;", "base64;", "=?UTF-8?q?", "=?x?b?=?=", "Mon, 99 Foo 2000", "\x00"})
+		case "prefix":
+			// what storage and transfer tools put in front of a message: a byte-order mark (whole
+			// or cut), an mbox separator line, empty lines
+			m.Arg = sim.Pick(r, []string{"\xEF\xBB\xBF", "\xEF\xBB\xBF", "\xEF\xBB", "\xEF", "\xFE\xFF", "\xFF\xFE", "From sender@origin.example Thu Jan  1 00:00:00 1970\r\n", "\r\n", "\n\n", " "})
 		case "insert":
 			m.Arg = sim.Pick(r, []string{`"`, ";", "=", "; filename=", `; filename=""`, "; filename=x", "\r\n", "\r\n\r\n", "--", "boundary=", "; charset=", "=?UTF-8?q?", ": ", "\x00", "Content-Type: multipart/mixed; boundary=x\r\n"})
 		}
@@ -177,6 +184,8 @@ func applyMuts(base, other []byte, muts []C09Mut) []byte {
 		switch m.Kind {
 		case "truncate":
 			b = b[:o]
+		case "prefix":
+			b = append([]byte(m.Arg), b...)
 		case "torn":
 			if o < len(other) {
 				b = append(b[:o:o], other[o:]...)
